@@ -357,6 +357,65 @@ namespace c16h
         }
       }
 
+      // ---- clear() histories: compile on a set S1, clear(), add a set S2, compile: the assembler must work on S2 only
+      {
+        const Index nc = Index(mc.geoms.size());
+        // DomainAssembler: all elements, clear, then element 0 (and the last one): mass sums to the volume of these cells
+        {
+          Assembly::DomainAssembler<TrafoType> da(trafo);
+          da.set_max_worker_threads(0);
+          da.compile_all_elements();
+          bool threw = false; std::string what;
+          MeshCtx<Shape_> sub;
+          sub.geoms.push_back(mc.geoms[0]);
+          if(nc > 2) sub.geoms.push_back(mc.geoms[nc - 1]);
+          CSR m = mk_csr_v();
+          try
+          {
+            da.clear();
+            da.add_element(0);
+            if(nc > 2) da.add_element(nc - 1);
+            da.compile();
+            Assembly::assemble_bilinear_operator_matrix_1(da, m, ident, velo, cn);
+          }
+          catch(const std::exception& e) { threw = true; what = e.what(); }
+          c.count("clear_histories");
+          if(threw)
+            c.fail(kp + "domain-assembler clear-readd exception", "DomainAssembler: compile_all_elements(); clear(); add_element(0) throws " + what);
+          else
+          {
+            Vec one(velo.get_num_dofs(), 1.0);
+            LD got = bilinear(m, one, one), ex = sub.volume();
+            c.check(std::fabs(got - ex) <= LD(1e-11) * (1 + ex), kp + "domain-assembler clear-readd", [&]{ return "after clear() and re-adding a subset the mass sums to " + std::to_string(double(got)) + ", subset volume " + std::to_string(double(ex)); });
+          }
+        }
+        // TraceAssembler: all outer facets via add_facet, compile, clear, one facet, compile: boundary mass sums to its measure
+        {
+          const String ct0 = ShapeInfo<Shape_>::is_simplex ? String("auto-degree:5") : String("gauss-legendre:3");
+          Cubature::DynamicFactory cf0(ct0);
+          const auto& fc = mc.mesh->template get_index_set<D, D - 1>();
+          std::map<Index, int> cnt;
+          for(Index k = 0; k < nc; ++k) for(int l = 0; l < fc.num_indices; ++l) cnt[fc(k, l)]++;
+          std::vector<Index> bf;
+          for(auto& kv : cnt) if(kv.second == 1) bf.push_back(kv.first);
+          Assembly::TraceAssembler<TrafoType> ta(trafo), tfresh(trafo);
+          for(Index f : bf) ta.add_facet(f);
+          ta.compile();
+          ta.clear();
+          ta.add_facet(bf.front());
+          ta.compile();
+          tfresh.add_facet(bf.front());
+          tfresh.compile();
+          CSR m1 = mk_csr_v(), m2 = mk_csr_v();
+          ta.assemble_operator_matrix1(m1, ident, velo, cf0);
+          tfresh.assemble_operator_matrix1(m2, ident, velo, cf0);
+          bool lay = false, bit = false;
+          double d = max_rel_diff(m2, m1, &lay, &bit);
+          c.count("clear_histories");
+          c.check(lay && d <= 1e-13, kp + "trace-assembler clear-readd", [&]{ return "TraceAssembler: add all boundary facets; compile(); clear(); add_facet(f); compile() assembles something else than a fresh assembler with facet f only (relative difference " + std::to_string(d) + ")"; });
+        }
+      }
+
       // ---- trace assembler
       {
         // facets added one by one in reversed order == compile_all_facets(outer)
